@@ -20,6 +20,22 @@ CHECKS = {
         technique="TLA+ reference parser (Parser.tla) + Tier-A tree predicates (TreeProps.tla) checked by TLC; behaviours "
                   "replayed into the real parser; real trees validated by TLC (TraceTree.tla)",
         ref="DESIGN.md §5 C01"),
+    'C02': dict(
+        text="The oracle is a TLA+ document writer that never looks at tokens: it appends source text construct by "
+             "construct (text, whitespace, paragraph breaks, comments, groups, inline/display math, specials, macro and "
+             "environment calls with every standard argument type given as group / single token / absent / star / "
+             "delimited / verbatim) with LaTeX's adjacency rules as enabling conditions, and records the abstract tree as "
+             "written. TLC enumerates every derivation up to the bound and checks on the composition with the reference "
+             "parser that every written document is accepted; every written document is parsed by the real strict "
+             "parser and the parsed structure must be exactly the written one (kinds, names, delimiters, nesting, each "
+             "slot's argument or 'absent').",
+        note="Bounded: all derivations of <=4 (quick) / <=5 (thorough) opening actions per construct set (8 sets over the "
+             "model context with every argument type, 6 sets over the default database). Whitespace-only character nodes "
+             "are ignored as the statement says; verbatim text is compared exactly. The writer's enabling conditions are "
+             "assumed to be LaTeX's rules (each was reviewed; TLC found one that was too permissive, see DESIGN.md).",
+        technique="TLA+ generator spec (DocWriter.tla) composed with the reference parser (DocCheck.tla), TLC; exact replay "
+                  "into the real parser",
+        ref="DESIGN.md §5 C02"),
     'C05': dict(
         text="The strict reference parser predicts tree-or-error and the error position for every string up to the "
              "bound; TLC checks that every model error is located inside the input; the real outcome (class, position, "
